@@ -92,7 +92,7 @@ def probe_state(ad, prefix, state, nevents, lam_seen, stats, case_of):
                       % (state, lam_seen, tot), case_of(prefix)))
         return viol, None
     ex = Explorer(lambda s: ad.run(s), ad.sig_of, hints=ad.hints(state))
-    base = list(prefix) + [("e", 1.0)]
+    base = list(prefix) + [("e", getattr(ad, "clock", 1.0))]
     leaves = ex.explore(base)
     stats["probe_runs"] = stats.get("probe_runs", 0) + ex.runs
     stats["bisect_probes"] = stats.get("bisect_probes", 0) + ex.bisect_probes
@@ -162,7 +162,7 @@ def probe_state(ad, prefix, state, nevents, lam_seen, stats, case_of):
                 viol.append(V("event_effect", "%s/event-effect" % name,
                               "state %r: code reports event %r but its final "
                               "statuses are %r" % (state, k, final),
-                              case_of(prefix + [("e", 1.0)] + lf.path)))
+                              case_of(prefix + [("e", getattr(ad, "clock", 1.0))] + lf.path)))
                 return viol, None
     return viol, (by_key, ref_by_proj)
 
@@ -171,7 +171,7 @@ def _fmt(law):
     return {repr(k): round(v, 10) for k, v in sorted(law.items(), key=repr)}
 
 
-def walk(ad, rng, max_steps, stats, case_of, keys=None, prefer=None):
+def walk(ad, rng, max_steps, stats, case_of, keys=None, prefer=None, trace=None):
     """One seeded walk.  Returns list of violations."""
     res = ad.run([])
     if res.status == "exc":
@@ -210,9 +210,12 @@ def walk(ad, rng, max_steps, stats, case_of, keys=None, prefer=None):
             k = rng.choice(cands)
         lf = rng.choice(by_key[k])
         events, final = ad.decode(lf.res)
-        prefix = prefix + [("e", 1.0)] + lf.path
+        prefix = prefix + [("e", getattr(ad, "clock", 1.0))] + lf.path
         state = final
         nev += 1
         lam = lf.res.next_clock
+        if trace is not None:
+            trace["prefix"] = prefix
+            trace["state"] = state
         stats["events_walked"] = stats.get("events_walked", 0) + 1
     return viol
